@@ -46,12 +46,12 @@ def _layout(sizes, align=4):
 
 def a1_one_chunk(s0: int, s1: int, s2: int, cs: int, ce: int) -> bool:
     """
-    pre: 0 <= s0 and 0 <= s1 and 0 <= s2
+    pre: 0 <= s0 <= s1 <= s2
     pre: 0 <= cs < ce
     pre: ce <= s0 + (-s0 % 4) + s1 + (-s1 % 4) + s2
     post: _
     """
-    sizes = [s0, s1, s2]
+    sizes = [s0, s1, s2]   # snapshot() sorts files by size, so sizes are non-decreasing along the stream
     state, total = _layout(sizes)
     snapshot_files = {}
     cd = _MK_CHUNK_DONE(state, snapshot_files, rt.Nop(), rt.Nop())
@@ -80,24 +80,25 @@ def a1_one_chunk(s0: int, s1: int, s2: int, cs: int, ce: int) -> bool:
     return ok
 
 
-def a1_empty_file_recorded(s0: int, s2: int, cs: int, ce: int) -> bool:
-    """An empty file in the middle of the stream is recorded (with digest and metadata) by the chunk that covers its
-    position, whatever the neighbours' sizes.
-    pre: 1 <= s0 and 0 <= s2
-    pre: 0 <= cs < ce
-    pre: cs <= s0 + (-s0 % 4) <= ce
-    pre: ce <= s0 + (-s0 % 4) + s2
+def a1_empty_file_recorded(z: int, s2: int, ce: int) -> bool:
+    """Files are sorted by size, so empty files lead the stream (position 0): the chunk starting at 0 records every one
+    of them with a zero-length reference, digest and metadata, whatever follows.
+    pre: 0 <= z <= s2 and 1 <= ce <= z + (-z % 4) + s2
     post: _
     """
-    state, total = _layout([s0, 0, s2])
+    state, total = _layout([0, z, s2])
     snapshot_files = {}
     cd = _MK_CHUNK_DONE(state, snapshot_files, rt.Nop(), rt.Nop())
-    cd(R._SnapshotChunk(contents=b'', index=1, location='', stream_start=cs, stream_end=ce, counter=1))
-    fd = snapshot_files.get('f1')
+    cd(R._SnapshotChunk(contents=b'', index=1, location='', stream_start=0, stream_end=ce, counter=1))
+    ok = True
+    for i in ([0, 1] if z == 0 else [0]):
+        fd = snapshot_files.get('f%d' % i)
+        if fd is None or fd['digest'] != b'D%d' % i or fd['metadata'] != {'i': i} or not fd['chunks'] or \
+                not all(r['range'][0] == r['range'][1] for r in fd['chunks']):
+            ok = False
     with NoTracing():
         tick('a1e', None)
-    return fd is not None and fd['digest'] == b'D1' and fd['metadata'] == {'i': 1} and \
-        all(r['range'][0] == r['range'][1] for r in fd['chunks'])
+    return ok
 
 
 # =========================================================================== S: L1 stream layout
